@@ -324,6 +324,8 @@ def fn_env(fn, roles):
 class Ev:
     def __init__(self, kind, node, ctx, **kw):
         self.kind, self.node, self.ctx = kind, node, ctx
+        self.pos = tuple(node.get("sp", [0, 0])[:2])   # source order; prefixed by the call site for inlined helpers
+        self.inlined = False
         self.__dict__.update(kw)
 
     def under(self, pred):
@@ -341,10 +343,18 @@ def strip_transparent(e):
     return e
 
 
-def events(node, env, cx, choose=None):
+def events(node, env, cx, choose=None, inline=None):
     """Walk statements/expressions in source order with scoping; report assignments, compound assignments, calls,
     returns, continue/break with operands resolved through let/pattern bindings and the enclosing conditions."""
     out = []
+    inline = inline or {}     # INLINE VIEW: private same-impl helpers (name -> FnInfo) whose bodies are walked at the call
+    site = []                 # stack of (call-site position, helper name)
+
+    def emit(ev):
+        if site:
+            ev.pos = site[0][0] + tuple(p for s_ in site[1:] for p in s_[0]) + ev.pos
+            ev.inlined = True
+        out.append(ev)
     choose = choose or {}
 
     def pmatch1(p, v):
@@ -397,6 +407,13 @@ def events(node, env, cx, choose=None):
                 else:
                     conds.append(c_)
             flat(c)
+            if len(conds) == 1 and conds[0].get("k") != "let_cond" and sym(conds[0], env, cx) in ("true", "false"):
+                # a literal condition (a helper's bool parameter resolved at the call site): only one branch exists
+                if sym(conds[0], env, cx) == "true":
+                    w(e["then"], env2, ctx)
+                elif e.get("else"):
+                    w(e["else"], env, ctx)
+                return
             tctx = ctx
             for c_ in conds:
                 if c_.get("k") == "let_cond":
@@ -453,12 +470,12 @@ def events(node, env, cx, choose=None):
             return
         if k == "assign":
             w(e["r"], env, ctx)
-            out.append(Ev("assign", e, ctx, lhs=sym(e["l"], env, cx), rhs=sym(e["r"], env, cx), rhs_node=e["r"]))
+            emit(Ev("assign", e, ctx, lhs=sym(e["l"], env, cx), rhs=sym(e["r"], env, cx), rhs_node=e["r"]))
             # an assignment to a plain local rebinds it for the rest of the scope only when it was a plain binding
             return
         if k == "binary" and e["op"].endswith("=") and e["op"] not in ("==", "!=", "<=", ">="):
             w(e["r"], env, ctx)
-            out.append(Ev("opassign", e, ctx, op=e["op"], lhs=sym(e["l"], env, cx), rhs=sym(e["r"], env, cx),
+            emit(Ev("opassign", e, ctx, op=e["op"], lhs=sym(e["l"], env, cx), rhs=sym(e["r"], env, cx),
                           rhs_node=e["r"]))
             return
         if k == "mcall":
@@ -471,24 +488,37 @@ def events(node, env, cx, choose=None):
                 w(cl[0]["body"], env2, ctx + (("closure", e["method"], "", True),))
             else:
                 w(e["args"], env, ctx)
-            out.append(Ev("call", e, ctx, name=e["method"], recv=sym(e["recv"], env, cx),
+            emit(Ev("call", e, ctx, name=e["method"], recv=sym(e["recv"], env, cx),
                           args=[sym(a, env, cx) for a in e["args"]]))
+            h = inline.get(e["method"])
+            if h is not None and sym(e["recv"], env, cx) == "self" and len(site) < 3 and \
+                    all(nm != e["method"] for _, nm in site):
+                params = [p_ for p_ in h.node["sig"]["params"] if not p_.get("self")]
+                if len(params) == len(e["args"]):
+                    henv = {}
+                    for p_, a_ in zip(params, e["args"]):
+                        bind(p_["pat"], symv(a_, env, cx), henv)
+                    site.append((tuple(e.get("sp", [0, 0])[:2]), e["method"]))
+                    try:
+                        w(h.body, henv, ctx)
+                    finally:
+                        site.pop()
             return
         if k == "call":
             w(e["args"], env, ctx)
-            out.append(Ev("call", e, ctx, name=short(sym(e["func"], env, cx)), recv=None,
+            emit(Ev("call", e, ctx, name=short(sym(e["func"], env, cx)), recv=None,
                           args=[sym(a, env, cx) for a in e["args"]]))
             return
         if k == "return":
             if e.get("e"):
                 w(e["e"], env, ctx)
-            out.append(Ev("return", e, ctx, val=sym(e.get("e"), env, cx) if e.get("e") else ""))
+            emit(Ev("return", e, ctx, val=sym(e.get("e"), env, cx) if e.get("e") else ""))
             return
         if k in ("continue", "break"):
-            out.append(Ev(k, e, ctx))
+            emit(Ev(k, e, ctx))
             return
         if k == "macro":
-            out.append(Ev("macro", e, ctx, name=short(e["name"])))
+            emit(Ev("macro", e, ctx, name=short(e["name"])))
             if e.get("args"):
                 w(e["args"], env, ctx)
             return
@@ -730,6 +760,23 @@ def run(rep, tier):
     rep.guard("R28.3", "union-find", lambda: r3_unionfind(rep))
     rep.guard("R28.3", "analyze", lambda: r3_analyze(rep))
     rep.guard("R28.4", "users", lambda: r4_users(rep))
+
+
+ANCHORS = {"analyze", "collect_equal_types", "type_info_func", "get", "type_id_info", "type_info", "optional_type_info",
+           "is_structurally_equal", "types_equal", "type_id_equal_to_type", "optional_types_equal",
+           "get_representative_type"}
+
+
+def private_helpers(rep, rel=T, self_ty="Types"):
+    """private methods of the impl that are not themselves analysed anchors: candidates for the inline view"""
+    out = {}
+    for f in synq.all_fns(rel):
+        if f.body is not None and f.self_ty == self_ty and f.trait is None and not f.node.get("vis") and f.name not in ANCHORS:
+            if f.name in out:
+                raise AnchorMissing(f"two private helpers named {f.name}")
+            out[f.name] = f
+            rep.saw(f"{rel}::{self_ty}::{f.name}")
+    return out
 
 
 def getfn(rep, name, self_ty="Types", rel=T):
@@ -1240,7 +1287,7 @@ def r3_func(rep):
     fn = getfn(rep, "type_info_func")
     cx = Ctx()
     env = fn_env(fn, {"&Resolve": "$resolve", "&Function": "$func", "bool": "$import"})
-    evs = events(fn.body, env, cx)
+    evs = events(fn.body, env, cx, inline=private_helpers(rep))
     adds = [e for e in evs if e.kind == "call" and e.name == "add_type" and len(e.args) == 2 and e.args[0] == "$resolve"]
     LP = {e.recv for e in adds if e.args[1] == "$func.params[].ty"}
     LR = {e.recv for e in adds if e.args[1] == "$func.result<Some>.0"}
@@ -1287,8 +1334,8 @@ def r3_func(rep):
     late = []
     for L, what in ((LP, "parameter"), (LR, "result")):
         for l in L:
-            fill = [order_key(e.node) for e in adds if e.recv == l]
-            reads = [order_key(e.node) for k_, f_, e in flagw if k_ == l + "[]"]
+            fill = [e.pos for e in adds if e.recv == l]
+            reads = [e.pos for k_, f_, e in flagw if k_ == l + "[]"]
             if fill and reads and not max(fill) < min(reads):
                 late.append(what)
     rep.ob(R, "type_info_func: a set of reachable types is complete before its members are flagged", not late, f"{late}", fn.loc())
@@ -1328,12 +1375,18 @@ def r3_collect(rep):
     fn = getfn(rep, "collect_equal_types")
     cx = Ctx()
     env = fn_env(fn, {"&Resolve": "$resolve", "WorldId": "$world", "&dynFn(TypeId)->bool": "$pred"})
-    evs = events(fn.body, env, cx)
+    evs = events(fn.body, env, cx, inline=private_helpers(rep))
     addw = [e for e in evs if e.kind == "call" and e.name == "add_world" and e.args == ["$resolve", "$world"]]
     LT = addw[0].recv if addw else "?"
     rep.ob(R, "collect_equal_types: candidates are the live types of the given world", len(addw) == 1 and LT.startswith("var#"),
            f"{[e.recv for e in addw]}", fn.loc())
+    # the candidates are walked in the live set's own order: either the iterator itself or a snapshot of it
+    # (`live.iter().collect()`), the earlier ones being the prefix before the current index (`take(i)` / `[..i]`)
     outer, earlier = f"{LT}[]", f"{LT}.take(idx({LT}))[]"
+    for base in (LT, f"{LT}.collect()"):
+        for pre in (f"{base}.take(idx({base}))[]", f"{base}[..idx({base})][]", f"{base}[0..idx({base})][]"):
+            if any(set(e.args) == {f"{base}[]", pre} for e in evs if e.kind == "call" and e.name == "union"):
+                outer, earlier = f"{base}[]", pre
     unions = [e for e in evs if e.kind == "call" and e.name == "union" and e.recv == "self.equal_types"]
     rep.floor(R, "union sites in collect_equal_types", len(unions), 1)
     for e in unions:
@@ -1347,8 +1400,9 @@ def r3_collect(rep):
                set(pair) == {outer, earlier}, f"union{pair}; expected the loop element and an element of the earlier prefix",
                fn.loc(e.node))
     # nothing else skips a candidate
-    skips = [e for e in evs if e.kind in ("continue", "break", "return")]
-    bad = []
+    skips = [e for e in evs if e.kind in ("continue", "break", "return") and
+             (not e.inlined or any(u.inlined for u in unions))]   # a helper's own control flow
+    bad = []                                                                                  # cannot skip a candidate
     same_class = {f"(self.equal_types.find({outer}) == self.equal_types.find({earlier}))",
                   f"(self.equal_types.find({earlier}) == self.equal_types.find({outer}))"}
     for e in skips:
@@ -1382,9 +1436,9 @@ def r3_collect(rep):
     rep.ob(R, "collect_equal_types: every type receives the merged info of its own class", len(wb_ok) >= 1 and len(wb_ok) == len(wb),
            "; ".join(f"{e.lhs} = {e.rhs}" for e in wb) or "no write-back", fn.loc(wb[0].node) if wb else fn.loc())
     if unions and good and wb_ok:
-        o1 = max(order_key(e.node) for e in unions)
-        o2 = max(order_key(e.node) for e in good)
-        o3 = min(order_key(e.node) for e in wb_ok)
+        o1 = max(e.pos for e in unions)
+        o2 = max(e.pos for e in good)
+        o3 = min(e.pos for e in wb_ok)
         nested = any(c[0] in ("for", "loop") and c[1] != "self.type_info" for e in good + wb_ok for c in e.ctx)
         rep.ob(R, "collect_equal_types: classes are complete before merging, merging is complete before the write-back",
                o1 < o2 < o3 and not nested, "order of union / merge / write-back loops", fn.loc())
